@@ -123,6 +123,8 @@ def check_text(case, ev):
                 plain_only = not (ip or words or asn)
                 if len(ta_) != len(tb_) or (plain_only and any(x != y for i_, (x, y) in enumerate(zip(ta_, tb_)) if i_ != k)):
                     return Finding("tokens/non-secret-tokens-of-secret-line-changed", "features %s: %r -> %r" % (feats, a, b), case)
+                if ln["strict"].get("same_text_earlier") and plain_only and pwd and k < len(tb_) and tb_[k] == ta_[k]:
+                    return Finding("tokens/secret-kept-while-equal-text-earlier-in-line-changed-or-not", "features %s: %r -> %r" % (feats, a, b), case)
             continue
         if ln is None:
             continue
@@ -217,12 +219,22 @@ def _case(draw):
                 if strict["slot_token"] >= len(toks_) or v not in toks_[strict["slot_token"]]:
                     strict = None
             inner = []
+            same_text = False
             for ph in ("Someone", "Somegroup", "Someview", "Foo", "PEERS", "example.com"):
+                if ph in s and draw(st.integers(0, 5)) == 0 and not any(ch.isspace() for ch in v) and len(v) >= 4:
+                    # the same text as the secret earlier on the line (user name == password):
+                    # only the secret's own position may change
+                    s = s.replace(ph, v)
+                    toks_ = s.split()
+                    last = max(i_ for i_, t_ in enumerate(toks_) if v in t_)
+                    strict = {"slot_token": last, "same_text_earlier": True}
+                    same_text = True
+                    continue
                 if ph in s and draw(st.booleans()):
                     tok = draw(st.sampled_from(["dom\\user", "a\\1b", "grp\\g<1>", "x\\", "user.name", "U$er", "(adm)", "né", "\\u0041"]))
                     s = s.replace(ph, tok)
                     inner.append(tok)
-            if inner:
+            if inner and not same_text:
                 strict = None
             lines.append({"secret": s.strip(), "scrub": form.mode != "pos", "strict": strict, "inner": inner, "prefix": draw(st.lists(st.sampled_from(VOCAB), max_size=2)), "lead": draw(_lead), "trail": draw(st.sampled_from(["", "", " ", "\t", "\xa0"])), "eol": eol})
             continue
